@@ -25,7 +25,7 @@ about those composed functions — for every configuration, option combination a
 * source tie: `load_tail_is_source` pins the printed statement of `load` that `finishLoad` mirrors.
 -/
 namespace CV.C11.Whole
-open CV CV.Val CV.C11 CV.Pipeline
+open CV CV.Val CV.C11 CV.C11.Spec CV.Pipeline
 
 /-- the glue statement of `loader.load` that `Pipeline.finishLoad` models (regenerated from loader/loader.go on every
 run): `name` is overwritten *unconditionally* with the resolved project name before `Normalize` -/
@@ -130,6 +130,33 @@ theorem finishLoad_resource_names (c : Cfg) (hn : c.opts.skipNormalization = fal
   have hne : r ≠ "name" := by rcases hr with h | h | h <;> subst h <;> decide
   unfold named
   rw [lookup_insert_self, lookup_insert_ne hne]
+
+/-- **the clause of the property, per resource, for the tail of `load`**: a volume / config / secret `key` of the merged
+model comes out with every attribute it had, and `name` filled — when absent or null — with `<project>_<key>`
+(`<key>` when external), `<project>` being the resolved project name whatever `name:` the files carried; an
+explicit name survives (`filledNil`) -/
+theorem finishLoad_resource (c : Cfg) (hn : c.opts.skipNormalization = false) (dict e : KVs)
+    (h : finishLoad c dict = .ok e) (r : String) (hr : r = "volumes" ∨ r = "configs" ∨ r = "secrets")
+    (top : KVs) (hsec : lookup r dict = some (.map top)) (key : String) (res : KVs)
+    (hres : lookup key top = some (.map res)) :
+    ∃ top' res', lookup r e = some (.map top') ∧ lookup key top' = some (.map res') ∧
+      look res' = filledNil "name"
+        (.str (resourceName c.projectName key (match lookup "external" res with | some x => isTrue x | none => false) none))
+        (look res) := by
+  refine ⟨mapAt (nameResource (some (.str c.projectName))) top, nameResourceKVs (some (.str c.projectName)) key res, ?_, ?_, ?_⟩
+  · rw [finishLoad_resource_names c hn dict e h r hr, hsec]; rfl
+  · rw [lookup_mapAt, hres]; rfl
+  · rw [resource_name_default, resource_default_name_spec]; rfl
+
+/-- a resource written without attributes (`key:`) gets the mapping `{name: <project>_<key>}` -/
+theorem finishLoad_null_resource (c : Cfg) (hn : c.opts.skipNormalization = false) (dict e : KVs)
+    (h : finishLoad c dict = .ok e) (r : String) (hr : r = "volumes" ∨ r = "configs" ∨ r = "secrets")
+    (top : KVs) (hsec : lookup r dict = some (.map top)) (key : String) (hres : lookup key top = some .null) :
+    ∃ top', lookup r e = some (.map top') ∧
+      lookup key top' = some (.map [("name", .str (c.projectName ++ "_" ++ key))]) := by
+  refine ⟨mapAt (nameResource (some (.str c.projectName))) top, ?_, ?_⟩
+  · rw [finishLoad_resource_names c hn dict e h r hr, hsec]; rfl
+  · rw [lookup_mapAt, hres]; rfl
 
 theorem declaredNetworks_named (c : Cfg) (dict : KVs) : declaredNetworks (named c dict) = declaredNetworks dict := by
   unfold declaredNetworks named
